@@ -19,7 +19,9 @@ RULE = ("[options reach the loop as the runner builds them: every case places ea
         "that takes external time: skip_ext_time from the bench attribute, the group, --skip-ext-time (bare, =true, =false), DIVAN_SKIP_EXT_TIME, or Divan::skip_ext_time(false|true) (before or after "
         "the limit; the builder wins), rounds read from the dumped event log, model driven by the same history; (7) the time origin: fresh processes "
         "with the REAL first-use overhead calibration (no override) under an auto-stepping virtual clock, min_time/max_time below and above the "
-        "calibration time, judged by the rule with the elapsed time measured from just before the first sample (c04_cal_sb). The harness logs every timestamp the loop takes; "
+        "calibration time, judged by the rule with the elapsed time measured from just before the first sample (c04_cal_sb); (8) limits written as "
+        "plain numbers of seconds: IntoDuration for u64 / f64 at function level against the exact nanosecond count, and benches whose attributes "
+        "say max_time = u64::MAX, min_time = u64::MAX above a fractional ceiling, values near 2^64 and above 2^53, and the same through Duration. The harness logs every timestamp the loop takes; "
         "the log drives the extracted model; the extracted c04_sb (rounds = least k with not continue_after k, computed "
         "declaratively from the logged timestamps) is evaluated on the implementation's output. "
         "Non-trivial = agreed `ok` line with at least one round; distinct by input line.")
@@ -108,6 +110,8 @@ def streams(tier, rng):
         L.make_stream("c04-corpus", "c04", L.corpus("C04")),
         L.cli_time_stream("c04-cli-time-limits", cli),
         L.calib_stream("c04-e2e-calibration-origin"),
+        L.into_duration_stream("c04-into-duration", rng, 120 if not big else 3000),
+        L.skip_ext_stream("c04-e2e-attribute-limits", L.attr_limit_cases()),
         L.os_timer_stream("c04-os-timer-ceiling"),
         L.skip_ext_stream("c04-e2e-skip-ext-time", L.skip_ext_cases(rng, 70 if not big else 300)),
         L.make_stream("c04-boundaries", "c04", aimed, hist=L.histogram(aimed),
